@@ -470,6 +470,115 @@ def rule_bounded(ctx) -> None:
         raise AnalysisError(f"C10.bounded-wait: only {n} loops found")
 
 
+def rule_data_phase_model(ctx) -> None:
+    """C10.data-phase-model: McuBoot._read_data and _send_data evaluated as whole functions against a scripted model interface.
+    Bytes read are returned exactly, completely and in order (cut to the requested length), a response to another command does not
+    end the phase, the final status decides success; bytes written reach the interface once, in order, then the final response is read
+    and its status is the result."""
+    mb = ctx.cls(MB, "McuBoot")
+    tags = ctx.enum_model(ctx.cls(MBC, "CommandTag"))
+    status = ctx.enum_model(ctx.cls("spsdk/mboot/error_codes.py", "StatusCode"))
+    if tags is None or status is None:
+        raise AnalysisError("C10.data-phase-model: CommandTag / StatusCode do not fold to enum models")
+    READ, OTHER, NOCMD = tags.READ_MEMORY, tags.WRITE_MEMORY, tags.NO_COMMAND
+    OKS, FAIL = status.SUCCESS.tag, status.FAIL.tag
+
+    def resp(tag, st):
+        return Obj(_resp=True, cmd_tag=tag.tag, status=st)
+
+    def model(fn_name, script, env_extra, cmd_exception):
+        written: List[bytes] = []
+        queue = list(script)
+
+        def leaves(c: ast.Call, ev):
+            f = norm(c.func)
+            if f == "self._interface.read" and not c.args:
+                if not queue:
+                    raise ordereval.Unsupported(c, "the model device has nothing more to send (the loop reads past the final response)")
+                return queue.pop(0)
+            if f == "self._interface.write_data" and len(c.args) == 1:
+                written.append(bytes(ev.ev(c.args[0])))
+                return None
+            if f == "isinstance" and len(c.args) == 2 and norm(c.args[1]) in ("GenericResponse", "CmdResponse", "(GenericResponse, CmdResponse)"):
+                v = ev.ev(c.args[0])
+                return isinstance(v, Obj) and "_resp" in v.__dict__
+            return ordereval.NOT_MODELLED
+        fn = ctx.own(MB, "McuBoot", fn_name)
+        me = Obj(_cls=mb, is_opened=True, _interface=Obj(allow_abort=False), _cmd_exception=cmd_exception, _status_code=OKS, enable_data_abort=False, _pause_point=None)
+        env = {"self": me, "progress_callback": None}
+        env.update(env_extra)
+        try:
+            out = ordereval.Evaluator(env, ctx.fold_sym(fn), opaque_return=False, call_value=ctx.model_calls(leaves, classes={"McuBoot": mb})).run(A.body_of(fn.node))
+        except ordereval.Unsupported as ex:
+            raise AnalysisError(f"C10.data-phase-model: {fn.qual} left the fragment: {ex}")
+        return out, written, me, len(queue)
+    probs = []
+    n = 0
+    reads = [
+        ("two packets, exact length", [b"abcd", b"efgh", resp(READ, OKS)], 8, False, ("return", b"abcdefgh")),
+        ("device sends more than requested", [b"abcd", b"efgh", resp(READ, OKS)], 6, False, ("return", b"abcdef")),
+        ("a response to another command in between", [b"ab", resp(OTHER, OKS), b"cd", resp(READ, OKS)], 4, False, ("return", b"abcd")),
+        ("no data, success", [resp(READ, OKS)], 0, True, ("return", b"")),
+        ("final status FAIL, exceptions off", [b"ab", resp(READ, FAIL)], 4, False, ("return", b"ab")),
+        ("final status FAIL, exceptions on", [b"ab", resp(READ, FAIL)], 4, True, ("raise", None)),
+        ("short data, exceptions on", [b"ab", resp(READ, OKS)], 4, True, ("raise", None)),
+    ]
+    for label, script, length, exc, want in reads:
+        out, _w, me, left = model("_read_data", script, {"cmd_tag": READ, "length": length}, exc)
+        n += 1
+        got = (out.kind, bytes(out.value) if isinstance(out.value, (bytes, bytearray)) else None)
+        if got != want or left:
+            probs.append(f"_read_data, {label}: {got} (unread script items {left}), expected {want}")
+        elif want[0] == "return" and me._status_code != script[-1].status:
+            probs.append(f"_read_data, {label}: status {me._status_code} is not the device's {script[-1].status}")
+    sends = [
+        ("two chunks, success", READ, [b"ab", b"cde"], [resp(READ, OKS)], False, ("return", True), [b"ab", b"cde"]),
+        ("device reports FAIL, exceptions off", READ, [b"ab", b"cde"], [resp(READ, FAIL)], False, ("return", False), [b"ab", b"cde"]),
+        ("device reports FAIL, exceptions on", READ, [b"ab"], [resp(READ, FAIL)], True, ("raise", None), [b"ab"]),
+        ("no response expected", NOCMD, [b"ab", b"c"], [], False, ("return", True), [b"ab", b"c"]),
+        ("no data", READ, [], [resp(READ, OKS)], False, ("return", True), []),
+    ]
+    for label, tag, chunks, script, exc, want, want_w in sends:
+        out, written, me, left = model("_send_data", script, {"cmd_tag": tag, "data": tuple(chunks)}, exc)
+        n += 1
+        got = (out.kind, out.value if out.kind == "return" else None)
+        if got != want or written != want_w or left:
+            probs.append(f"_send_data, {label}: {got}, written {written} (unread {left}), expected {want} and {want_w}")
+    # SDP._read_data against a model ROM that serves the stream in the requested portions (a HAB status report may come in between)
+    sfn = ctx.own(SDP, "SDP", "_read_data")
+    sdp = ctx.cls(SDP, "SDP")
+    for length, hab_at in ((0, None), (5, None), (64, None), (65, None), (150, None), (150, 1)):
+        stream = bytes((7 * i + 1) & 0xFF for i in range(400))
+        state = {"pos": 0, "calls": 0, "asked": []}
+
+        def leaves2(c: ast.Call, ev, state=state, hab_at=hab_at, stream=stream):
+            if norm(c.func) == "self._interface.read" and len(c.args) == 1:
+                k = ev.ev(c.args[0])
+                state["calls"] += 1
+                if state["calls"] > 20:
+                    raise ordereval.Unsupported(c, "the read loop does not terminate on the model")
+                if hab_at is not None and state["calls"] == hab_at + 1:
+                    return Obj(hab=True, value=0x56787856, raw_data=b"")
+                state["asked"].append(k)
+                chunk = stream[state["pos"]:state["pos"] + k]
+                state["pos"] += k
+                return Obj(hab=False, value=0, raw_data=chunk)
+            return ordereval.NOT_MODELLED
+        me = Obj(_cls=sdp, _interface=Obj(expect_status=True), _hab_status=0, _status_code=0)
+        try:
+            out = ordereval.Evaluator({"self": me, "length": length}, ctx.fold_sym(sfn), opaque_return=False,
+                                      call_value=ctx.model_calls(leaves2, classes={"SDP": sdp})).run(A.body_of(sfn.node))
+        except ordereval.Unsupported as ex:
+            raise AnalysisError(f"C10.data-phase-model: {sfn.qual} left the fragment: {ex}")
+        n += 1
+        ok = out.kind == "return" and isinstance(out.value, (bytes, bytearray)) and bytes(out.value) == stream[:length] and all(0 < k <= 64 for k in state["asked"]) and sum(state["asked"]) == length
+        if not ok:
+            probs.append(f"SDP._read_data({length}){' with a HAB report' if hab_at is not None else ''}: {out.kind} {bytes(out.value)[:12].hex() if isinstance(out.value, (bytes, bytearray)) else out.value!r}, portions asked {state['asked']}")
+    ctx.chk.exhaustive_rules.add("C10.data-phase-model")
+    ctx.chk.decide(not probs, "C10.data-phase-model", f"{MB}::McuBoot._read_data/_send_data, {SDP}::SDP._read_data", f"data phases move exactly the scripted bytes, in order, and report the device's final status ({n} scripted devices)",
+                   "; ".join(probs[:2])[:700], "", A.loc(MB, ctx.own(MB, "McuBoot", "_read_data").node))
+
+
 def run(ctx) -> None:
     ctx.chk.explain("C10: for every McuBoot/SDP operation the command response must flow into the StatusCode.SUCCESS comparison and every data phase / positive return must be control "
                     "dependent on the passing branch; data phases agree with the HAS_DATA_PHASE flag and the packet tag; chunking (_split_data, USB chunked read, SDP read loop) is "
@@ -481,6 +590,7 @@ def run(ctx) -> None:
     ctx.rule(rule_frame)
     ctx.rule(rule_registry)
     ctx.rule(rule_bounded)
+    ctx.rule(rule_data_phase_model)
     ctx.chk.assumptions = ["device reads raise on timeout (interfaces/device/base.py contract)", "the interface models used for the loop evaluation return at most the requested number of bytes",
                            "not decided: arbitrary fault histories, exact bytes on the wire, USB-HID report framing"]
 
